@@ -195,6 +195,9 @@ def run_ops_scenario(r: Runner, scn: dict):
 # CLI scenarios (no intermediate state observable): one Cli event per run
 
 
+STALE = b"left behind by an earlier invocation\n"
+
+
 def run_cli(r: Runner, scn: dict):
     """scn: {'eb', 'sub': 'from_payloads'|'merge', 'inputs': [[uri, datalen, seed]...] or groups for merge}"""
     ctx = r.ctx
@@ -254,8 +257,10 @@ def run_cli(r: Runner, scn: dict):
             f = d / f"cache{g}.bin"
             f.write_bytes(bytes(buf))
             args += ["--input", f]
+    if scn.get("stale"):
+        out.write_bytes(STALE)   # history: the output file exists already, left by an earlier invocation
     p = subprocess.run(core.cli_cmd(*args), cwd=d, env=core.cli_env(guard=False), capture_output=True, text=True)
-    written = out.exists()
+    written = out.exists() and out.read_bytes() != STALE
     ok, flen, ents = (False, 0, [])
     if written:
         ok, flen, ents = walk_file(out.read_bytes(), it)
@@ -419,7 +424,8 @@ def run(ctx: core.Check):
     ctx.note("Use C: CLI runs")
     r = Runner(ctx)
     cl = gen_cli(ctx)
-    for s in cl:
+    for k_, s in enumerate(cl):
+        s["stale"] = k_ % 3 == 1
         run_cli(r, s)
         ctx.count("evaluations")
     ctx.sample({"cli_scenario": cl[0], "events": [e for e in r.events if e["tid"] == 1]})
